@@ -16,4 +16,11 @@ def jobs(tier):
 
 
 def extra_jobs(tier):
-    return []
+    # rejections that come from other internal steps: the second of two loans of an auto-borrow order failing with a
+    # plain Error (no lending conditions for the quote symbol) - the first loan must be rolled back
+    ps = []
+    for ar in (False, True):
+        ps.append(dict(plan="loans", depth=2, bp=8, qp=2, lend="margin_base_only", namounts=2, closes=hist.CLOSES,
+                       kinds=["limit", "market"], sides=["sell"], auto_borrow=True, auto_repay=ar, loan_symbol="BTC",
+                       min_fee="5"))
+    return hist.jobs_for(PROPS, ps)
